@@ -373,7 +373,8 @@ impl MetadataBlockData {
     ///
     /// # Errors
     ///
-    /// Emits errors when `tag` is out of range.
+    /// Emits errors when `tag` is out of range, or when `data` is too long
+    /// to be stored in a metadata block.
     ///
     /// # Examples
     ///
@@ -391,7 +392,9 @@ impl MetadataBlockData {
     /// assert_eq!(&[0x34, 0x56], sink.as_slice());
     /// ```
     pub fn new_unknown(tag: u8, data: &[u8]) -> Result<Self, VerifyError> {
-        verify_range!("tag", tag, 0..=126)?;
+        // tag 0 is reserved for `StreamInfo`; the length field has 24 bits.
+        verify_range!("tag", tag, 1..=126)?;
+        verify_range!("data.len", data.len(), ..(1usize << 24))?;
         Ok(Self::Unknown {
             typetag: tag,
             data: data.to_owned(),
